@@ -162,15 +162,40 @@ def kernel_slice(core):
     if not iff:
         raise KernelError("slice.update: no gate")
     tr = Tr({"self.state": "state", "self.star": "start", "self.step": "step", "self.end": "stop"})
-    gate = tr.bexpr(iff[0].test)
+    # the gate is either the test of the `if` guarding the emission or a local bound to it beforehand
+    guards = [s for s in iff if "self._emit" in ast.unparse(s)]
+    if len(guards) != 1:
+        raise KernelError("slice.update: expected exactly one `if` guarding the emission")
+    # an `if` before it may only be the early return of a finished slice
+    early = [s for s in iff if s is not guards[0]]
+    finished = "false"
+    if early:
+        if len(early) != 1 or body_src(upd).index(early[0]) != 0 or not (len(early[0].body) == 1 and isinstance(early[0].body[0], ast.Return)):
+            raise KernelError("slice.update: unexpected `if` besides the gate")
+        t0 = early[0].test
+        if not (isinstance(t0, ast.BoolOp) and isinstance(t0.op, ast.And) and len(t0.values) == 2
+                and ast.unparse(t0.values[0]) == "self.end is not None"):
+            raise KernelError("slice.update: early return condition is not `self.end is not None and ...`")
+        finished = tr.bexpr(t0.values[1])
+    iff = guards
+    gate_stmt, gate_expr = iff[0], iff[0].test
+    if isinstance(gate_expr, ast.Name):
+        binds = [s for s in body_src(upd) if isinstance(s, ast.Assign) and len(s.targets) == 1
+                 and ast.unparse(s.targets[0]) == gate_expr.id]
+        if len(binds) != 1:
+            raise KernelError("slice.update: gate variable %s is not bound exactly once" % gate_expr.id)
+        gate_stmt, gate_expr = binds[0], binds[0].value
+    if "_emit" not in ast.unparse(iff[0]):
+        raise KernelError("slice.update: the gate does not guard the emission")
+    gate = tr.bexpr(gate_expr)
     incr = [s for s in body_src(upd) if isinstance(s, ast.AugAssign) and ast.unparse(s.target) == "self.state"]
     if len(incr) != 1 or not isinstance(incr[0].op, ast.Add) or ast.unparse(incr[0].value) != "1":
         raise KernelError("slice.update: state is not incremented by one")
-    # the increment must come after the gate
-    idx_gate = body_src(upd).index(iff[0])
+    # the gate must be evaluated on the position BEFORE the increment
+    idx_gate = body_src(upd).index(gate_stmt)
     idx_inc = body_src(upd).index(incr[0])
     if idx_inc < idx_gate:
-        raise KernelError("slice.update: state incremented before the gate")
+        raise KernelError("slice.update: state incremented before the gate is evaluated")
     cb = [s for s in body_src(chk) if isinstance(s, ast.If)]
     if len(cb) != 1:
         raise KernelError("slice._check_end: shape")
@@ -183,7 +208,9 @@ def kernel_slice(core):
     return ("(* streamz/core.py slice.update / _check_end *)\n"
             "Definition gen_slice_pass (state start step : Z) : bool := %s.\n"
             "Definition gen_slice_done (state : Z) (stop : option Z) : bool :=\n"
-            "  match stop with Some stop => %s | None => false end.\n" % (gate, done))
+            "  match stop with Some stop => %s | None => false end.\n"
+            "Definition gen_slice_finished (state : Z) (stop : option Z) : bool :=\n"
+            "  match stop with Some stop => %s | None => false end.\n" % (gate, done, finished))
 
 
 def kernel_kafka(sources):
